@@ -82,7 +82,9 @@ def run(seed, checks):
                     detail = open(os.path.join(VERIF, m.group(1))).read()[:3000]
                 except Exception:
                     pass
+            summ = [l for l in o.splitlines() if " corr-diffs=" in l and " oracle-fails=" in l]
             res["checks"][c] = {"rc": rc, "violation_lines": viol, "secs": round(dt, 1), "replay_head": detail,
+                                "summary": summ[-1] if summ else "",
                                 "tail": "\n".join(o.strip().splitlines()[-3:])}
             print(f"  {c}: rc={rc} {'DETECTED' if rc == 1 and viol else 'missed' if rc == 0 else 'ERROR'} ({dt:.0f}s)"
                   + (f"  {viol[0][:160]}" if viol else ""))
